@@ -36,7 +36,7 @@ SCOPE_DEVS = ["getlogger-disabled-scope-new-object"]
 NAME_INVS = "TypeOK StatementName StatementUnit ExactlyValid LayoutFree DevNarrow HandAgrees"
 VIEW_INVS = "ExactlyMatching OnlyViewShapes DefaultWhenNoMatch DevNarrow"
 SCOPE_INVS = ("FirstMatchWins DisabledEmitsNothingOthersUnaffected DifferentlyNamedUnaffected "
-              "SameArgsSameObject DevNarrow")
+              "SameArgsSameObject DifferentArgsDifferentObject DevNarrow")
 
 NAME_TAGS = {"valid255", "invalid256", "unit63", "unit64", "devname", "devunit", "nulname", "highunit"}
 VIEW_TAGS = {"TwoMatch", "FirstOnly", "SecondOnly", "NoneOfTwo", "Drop", "ObsFilter", "KeyView", "KeyNul",
@@ -379,13 +379,13 @@ def scope_jobs(ctx):
         Job("scope-mc-asimpl", "ScopeConfig", scope_cfg("SignalsAll", "Matchers3", "Scopes3", 2, 3, 2, "AllDevs", False,
                                                         SCOPE_INVS), coverage=True),
         # every rule list of <= 3 rules x both defaults x the three signals, all scopes
-        Job("scope-g-sweep", "ScopeConfig", scope_cfg("SignalsAll", "Matchers5", "Scopes5", 3, 0, 0, "NoDev", False, "EmitSweep")),
+        Job("scope-g-sweep", "ScopeConfig", scope_cfg("SignalsAll", "Matchers5", "Scopes7", 3, 0, 0, "NoDev", False, "EmitSweep")),
         Job("scope-g-sweep-attr", "ScopeConfig", scope_cfg("SignalLogs", "Matchers3", "ScopesLog", 2, 0, 0, "NoDev", False,
                                                            "EmitSweep")),
         # witness-directed behaviours (identity asked twice, disabled logger twice, ...)
         Job("scope-g-wit", "ScopeConfig", scope_cfg("SignalsAll", "Matchers3", "Scopes3", 1, 3, 2, "NoDev", True, "WitAll",
                                                     init="WInit"), workers=1),
-        Job("scope-g-sim", "ScopeConfig", scope_cfg("SignalsAll", "Matchers5", "Scopes5", 3, 6, 6, "NoDev", True, "EmitAll"),
+        Job("scope-g-sim", "ScopeConfig", scope_cfg("SignalsAll", "Matchers5", "Scopes7", 3, 6, 6, "NoDev", True, "EmitAll"),
             simulate={"num": 2500 if thorough else 400, "depth": 13}, seed=ctx.seed + 31),
     ]
 
@@ -416,10 +416,15 @@ def scope_replay(ctx, exe, results):
             raise Broken("%s printed nothing" % n)
         for b in got:
             steps, exp = [], []
-            for k, c in enumerate(sorted(b["cases"], key=lambda c: canon(c["scope"]))):
+            order = sorted(b["cases"], key=lambda c: canon(c["scope"]))
+            if (len(lines) + ctx.seed) % 2:     # both request orders matter for identities that are related
+                order.reverse()
+            for k, c in enumerate(order):
                 tags.update(c["tags"])
-                steps += [{"op": "get", "scope": c["scope"], "cmp": []}, {"op": "emit", "h": k + 1}]
-                exp += [{"exp": [], "alts": []}, {"exp": c["enabled"]}]
+                steps += [{"op": "get", "scope": c["scope"], "cmp": list(range(1, k + 1))}, {"op": "emit", "h": k + 1}]
+                # `shares` (printed by TLC): the other scopes of the sweep that must be the same object
+                same = [j + 1 for j in range(k) if order[j]["scope"] in c["shares"]]
+                exp += [{"exp": same, "alts": []}, {"exp": c["enabled"]}]
             add(b, steps, exp, n)
     for n in ("scope-g-wit", "scope-g-sim"):
         got = results[n].printed("BEH")
@@ -455,8 +460,8 @@ def scope_replay(ctx, exe, results):
                         "expect": expect[l["id"]], "instances": r["inst"] + 1, "seed": ctx.seed}
             if st["op"] == "get":
                 def what(l=l, st=st, ex=ex, ob=ob, k=k):
-                    return ("%s provider, rules %s default %s: step %d Get(%s) must return the same object as the earlier "
-                            "handles %s requested with the same arguments, but is identical only to %s" % (
+                    return ("%s provider, rules %s default %s: step %d Get(%s) must be the same object as exactly the earlier "
+                            "handles %s (those requested with the same arguments), but is identical to the handles %s" % (
                                 l["signal"], canon(l["rules"]), l["dflt"], k + 1, canon(st["scope"]), ex["exp"], ob["same"]))
                 ok = classify(ctx, sorted(ob["same"]), ex["exp"], ex["alts"],
                               lambda a, ob=ob: sorted(a["same"]) == sorted(ob["same"]), what, rep, stats)
@@ -551,7 +556,7 @@ def run(ctx):
         "concretisation tables of harness/c19_{names,views,scopes}.cc (byte classes partition 0..255; name tokens, units, meters, scope names) are part of the trusted base",
         "instrument names are replayed through all 6 instrument types x {integer, floating point} chosen by seed; the verdict must not depend on the choice",
         "an exactly-sized, non-terminated string_view argument is replayed in a forked child; reading past it is 'undefined' (any outcome, or an ASan report) under the c-string deviations only",
-        "left open because the statement is silent: order of collected streams; monotonicity/temporality/values; a meter WITHOUT version/schema against a selector WITH one; whether a drop view yields no stream or a stream of drop points; regex metacharacters inside exact names; whether different scope arguments give distinct objects",
+        "left open because the statement is silent: order of collected streams; monotonicity/temporality/values; a meter WITHOUT version/schema against a selector WITH one; whether a drop view yields no stream or a stream of drop points; regex metacharacters inside exact names",
         "only the std::regex variants of the validators and PatternPredicate are executed (OPENTELEMETRY_HAVE_WORKING_REGEX == 0 cannot be selected with this compiler); the hand-written validators are compared with the statement inside the model only (HandAgrees)",
         "ABI v1: only GetLogger takes scope attributes; GetTracer/GetMeter identity is name/version/schema",
     ]
